@@ -1,15 +1,40 @@
 (* C11 -- types map one-to-one onto files in the output tree; the namespace model is a tree.
-   Statements only; every proof is `exact <lemma>`.
-   Model: Gen/Namespace.v (hand model of nunavut/_namespace.py build_namespace_tree, Namespace enumeration,
-   BFS lookup, and of IncludeGenerator.make_path), tied to /repo by the correspondence run of tools/checks/c11.py.
-   Spec vocabulary: Gen/NamespaceSpec.v (prefixes, nodes_of, parent_of, one_root, ns_fold, resolve ...).
+   Statements only; every proof is `exact <lemma>` (finite facts about regenerated definitions: reflexivity).
+   Model: Gen/Namespace.v (hand model of nunavut/_namespace.py build_namespace_tree, Namespace enumeration, BFS lookup,
+   and of IncludeGenerator.make_path).  Source tie, regenerated from /repo on every run (tools/translators/gen_c11.py):
+   shape pins on every function the model describes (Gen_Pin_c11tree.v, Gen_Pin_c11path.v: `pin_..._ok` is only defined
+   while the normalised AST is the one the model was written for) and an AST scan of the two path sites
+   (Gen_C11Scan.v); plus the correspondence run of tools/checks/c11.py.
+   Spec vocabulary: Gen/NamespaceSpec.v (prefixes, nodes_of, parent_of, one_root, resolve ...).
    Quantification: EVERY list of types (NoDup = pairwise different (namespace, short name, version); one_root = what
    pydsdl.read_namespace returns), EVERY stropping function, EVERY iteration order `perm` of the set namespace_index and
    `cperm` of the sets Namespace._nested_namespaces, every extension / stem / output directory.
-   ns_fold strop types = true is the TRIGGER of known finding F-NS-FOLD: two different DSDL namespaces with the same
-   stropped spelling (Namespace.__eq__/__hash__ compare the stropped name). *)
+   `same` is the eqkey of the current code: since fix f08a0a1 Namespace.__eq__/__hash__ compare the unstropped
+   _namespace_components, so NO input is excluded any more (no ns_fold premise). *)
 From Verif Require Import NamespaceBase NamespaceBuildThm NamespaceTreeThm NamespacePathThm NamespaceThm.
+From Verif Require Import Gen_Pin_c11tree Gen_Pin_c11path Gen_C11Scan.
 Open Scope N_scope.
+
+(* (0) source tie.  The model is valid for the pinned shape of: build_namespace_tree, _NamespaceFactory.*, Namespace.__eq__ /
+   __hash__ / _add_data_type / _add_nested_namespace / get_root_namespace / get_all_* / _recursive_* /
+   find_output_path_for_type / _bfs_search_for_output_path (tree) and Namespace.__init__, IncludeGenerator.make_path /
+   _make_ns_list, Language.filter_short_reference_name, DSDLCodeGenerator.filter_type_to_include_path (path). *)
+Example C11_tree_shape_pinned : pin_c11tree_ok = true.
+Proof. reflexivity. Qed.
+Example C11_path_shape_pinned : pin_c11path_ok = true.
+Proof. reflexivity. Qed.
+
+(* both sites that turn a type into a file path -- Namespace._add_data_type (generated) and include generation (merely
+   referenced) -- make exactly one call of make_path and strop nothing themselves; make_path takes the namespace
+   components from _make_ns_list; and every stropping call of the path mechanism (Namespace.__init__ for the namespace
+   folder, make_path for the file stem, _make_ns_list for the type's directories) passes the SAME identifier type "path":
+   this is what justifies the single function `strop` of the model. *)
+Theorem C11_path_sites_same_id_type :
+  scan_add_data_type_calls_make_path = true /\ scan_include_gen_calls_make_path = true /\
+  scan_sites_own_stropping_calls = 0%nat /\ scan_make_path_uses_make_ns_list = true /\
+  length scan_path_id_types = 3%nat /\ forallb (str_eqb [112; 97; 116; 104]) scan_path_id_types = true.
+Proof. repeat split; reflexivity. Qed.
+Print Assumptions C11_path_sites_same_id_type.
 
 (* (1) index_prefix_closed: after the loop over the types the ancestor index is exactly the set of all non-empty
    prefixes of the types' namespaces, without duplicates -- the invariant that makes the `break` sound. *)
@@ -17,7 +42,7 @@ Theorem C11_index_prefix_closed (strop : str -> str) (es : bool) (ext : str) (ou
   forall (types : list ty) (r : str), NoDup types -> one_root r types ->
     NoDup (snd (build_index strop es ext outdir types)) /\
     forall k, In k (snd (build_index strop es ext outdir types)) <-> In k (nodes_of types).
-Proof. exact (index_is_prefix_set strop es ext outdir). Qed.
+Proof. exact (index_is_prefix_set strop same es ext outdir). Qed.
 Print Assumptions C11_index_prefix_closed.
 
 (* (2) ns_each_once: every non-empty prefix of every type's namespace (empty intermediate namespaces included) is a
@@ -25,18 +50,18 @@ Print Assumptions C11_index_prefix_closed.
 Theorem C11_ns_each_once (strop : str -> str) (es : bool) (ext : str) (outdir : path) :
   forall perm, (forall l, Permutation (perm l) l) ->
   forall (types : list ty) (r : str), NoDup types -> one_root r types -> types <> [] ->
-    NoDup (keys (fst (build strop es ext outdir perm types))) /\
-    forall k, In k (keys (fst (build strop es ext outdir perm types))) <-> In k (nodes_of types).
-Proof. exact (ns_each_once strop es ext outdir). Qed.
+    NoDup (keys (fst (build strop same es ext outdir perm types))) /\
+    forall k, In k (keys (fst (build strop same es ext outdir perm types))) <-> In k (nodes_of types).
+Proof. exact (ns_each_once strop same es ext outdir). Qed.
 Print Assumptions C11_ns_each_once.
 
 (* (3) every type is stored exactly once, in the node of its own namespace, with its output path *)
 Theorem C11_types_stored_once (strop : str -> str) (es : bool) (ext : str) (outdir : path) :
   forall perm, (forall l, Permutation (perm l) l) ->
   forall (types : list ty) (r : str), NoDup types -> one_root r types -> types <> [] ->
-  forall k n, get (fst (build strop es ext outdir perm types)) k = Some n ->
+  forall k n, get (fst (build strop same es ext outdir perm types)) k = Some n ->
     n_types n = map (fun t => (t, out_path strop es ext outdir t)) (filter (fun t => key_eqb (t_ns t) k) types).
-Proof. exact (types_stored_once strop es ext outdir). Qed.
+Proof. exact (types_stored_once strop same es ext outdir). Qed.
 Print Assumptions C11_types_stored_once.
 
 (* (4) links: _parent is the namespace one component shorter; every member of _nested_namespaces is a node whose
@@ -44,64 +69,60 @@ Print Assumptions C11_types_stored_once.
 Theorem C11_links_sound (strop : str -> str) (es : bool) (ext : str) (outdir : path) :
   forall perm, (forall l, Permutation (perm l) l) ->
   forall (types : list ty) (r : str), NoDup types -> one_root r types -> types <> [] ->
-  forall k n, get (fst (build strop es ext outdir perm types)) k = Some n ->
+  forall k n, get (fst (build strop same es ext outdir perm types)) k = Some n ->
     n_parent n = parent_of k /\
-    forall c, In c (n_children n) -> In c (keys (fst (build strop es ext outdir perm types))) /\ parent_of c = Some k.
-Proof. exact (links_sound strop es ext outdir). Qed.
+    forall c, In c (n_children n) -> In c (keys (fst (build strop same es ext outdir perm types))) /\ parent_of c = Some k.
+Proof. exact (links_sound strop same es ext outdir). Qed.
 Print Assumptions C11_links_sound.
 
-(* (4') links_consistent: c in children(p)  <->  c is a node and parent-by-name(c) = p; children duplicate-free.
-   PARTIAL: excluded trigger ns_fold (see refutation below). *)
-Theorem C11_links_consistent_partial (strop : str -> str) (es : bool) (ext : str) (outdir : path) :
+(* (4') links_consistent: c in children(p)  <->  c is a node and parent-by-name(c) = p; children duplicate-free. *)
+Theorem C11_links_consistent (strop : str -> str) (es : bool) (ext : str) (outdir : path) :
   forall perm, (forall l, Permutation (perm l) l) ->
   forall (types : list ty) (r : str), NoDup types -> one_root r types -> types <> [] ->
-  ns_fold strop types = false ->
-  forall k n, get (fst (build strop es ext outdir perm types)) k = Some n ->
+  forall k n, get (fst (build strop same es ext outdir perm types)) k = Some n ->
     n_parent n = parent_of k /\ NoDup (n_children n) /\
-    forall c, In c (n_children n) <-> (In c (keys (fst (build strop es ext outdir perm types))) /\ parent_of c = Some k).
-Proof. exact (links_consistent_partial strop es ext outdir). Qed.
-Print Assumptions C11_links_consistent_partial.
+    forall c, In c (n_children n) <-> (In c (keys (fst (build strop same es ext outdir perm types))) /\ parent_of c = Some k).
+Proof. exact (links_consistent strop es ext outdir). Qed.
+Print Assumptions C11_links_consistent.
 
 (* (5) tree: the returned root is the one-component namespace [r]; get_root_namespace reaches it from every node;
    it is the only node without parent; every parent is a node and is exactly one component shorter (acyclic). *)
 Theorem C11_tree (strop : str -> str) (es : bool) (ext : str) (outdir : path) :
   forall perm, (forall l, Permutation (perm l) l) ->
   forall (types : list ty) (r : str), NoDup types -> one_root r types -> types <> [] ->
-    snd (build strop es ext outdir perm types) = [r] /\
-    (forall k, In k (keys (fst (build strop es ext outdir perm types))) -> get_root_namespace (fst (build strop es ext outdir perm types)) k = [r]) /\
-    (forall k n, get (fst (build strop es ext outdir perm types)) k = Some n -> (n_parent n = None <-> k = [r])) /\
-    (forall k n p, get (fst (build strop es ext outdir perm types)) k = Some n -> n_parent n = Some p ->
-        In p (keys (fst (build strop es ext outdir perm types))) /\ length k = S (length p) /\ firstn (length p) k = p).
-Proof. exact (tree_shape strop es ext outdir). Qed.
+    snd (build strop same es ext outdir perm types) = [r] /\
+    (forall k, In k (keys (fst (build strop same es ext outdir perm types))) -> get_root_namespace (fst (build strop same es ext outdir perm types)) k = [r]) /\
+    (forall k n, get (fst (build strop same es ext outdir perm types)) k = Some n -> (n_parent n = None <-> k = [r])) /\
+    (forall k n p, get (fst (build strop same es ext outdir perm types)) k = Some n -> n_parent n = Some p ->
+        In p (keys (fst (build strop same es ext outdir perm types))) /\ length k = S (length p) /\ firstn (length p) k = p).
+Proof. exact (tree_shape strop same es ext outdir). Qed.
 Print Assumptions C11_tree.
 
 (* (6) types_each_once: get_all_types / get_all_datatypes / get_all_namespaces from the root enumerate every type
-   exactly once (with its output path) and every namespace exactly once, for every iteration order.
-   PARTIAL: excluded trigger ns_fold. *)
-Theorem C11_types_each_once_partial (strop : str -> str) (es : bool) (ext : str) (stem : str) (outdir : path) :
+   exactly once (with its output path) and every namespace exactly once, for every iteration order and every
+   stropping function (also one that folds namespace names onto each other). *)
+Theorem C11_types_each_once (strop : str -> str) (es : bool) (ext : str) (stem : str) (outdir : path) :
   forall perm cperm, (forall l, Permutation (perm l) l) -> (forall l, Permutation (cperm l) l) ->
   forall (types : list ty) (r : str), NoDup types -> one_root r types -> types <> [] ->
-  ns_fold strop types = false ->
-    Permutation (get_all_types strop ext stem outdir cperm (fst (build strop es ext outdir perm types)) (snd (build strop es ext outdir perm types)))
-                (map (ns_item strop ext stem outdir) (keys (fst (build strop es ext outdir perm types)))
+    Permutation (get_all_types strop ext stem outdir cperm (fst (build strop same es ext outdir perm types)) (snd (build strop same es ext outdir perm types)))
+                (map (ns_item strop ext stem outdir) (keys (fst (build strop same es ext outdir perm types)))
                  ++ map (ty_item strop es ext outdir) types) /\
-    Permutation (get_all_datatypes cperm (fst (build strop es ext outdir perm types)) (snd (build strop es ext outdir perm types)))
+    Permutation (get_all_datatypes cperm (fst (build strop same es ext outdir perm types)) (snd (build strop same es ext outdir perm types)))
                 (map (fun t => (t, out_path strop es ext outdir t)) types) /\
-    Permutation (get_all_namespaces strop ext stem outdir cperm (fst (build strop es ext outdir perm types)) (snd (build strop es ext outdir perm types)))
-                (map (fun k => (k, ns_path strop ext stem outdir k)) (keys (fst (build strop es ext outdir perm types)))).
-Proof. exact (types_each_once_partial strop es ext stem outdir). Qed.
-Print Assumptions C11_types_each_once_partial.
+    Permutation (get_all_namespaces strop ext stem outdir cperm (fst (build strop same es ext outdir perm types)) (snd (build strop same es ext outdir perm types)))
+                (map (fun k => (k, ns_path strop ext stem outdir k)) (keys (fst (build strop same es ext outdir perm types)))).
+Proof. exact (types_each_once strop es ext stem outdir). Qed.
+Print Assumptions C11_types_each_once.
 
 (* (7) lookup_total: find_output_path_for_type finds every type of the tree from every node (own dictionary, else
-   BFS from the root skipping self) and returns its output path.  PARTIAL: excluded trigger ns_fold. *)
-Theorem C11_lookup_total_partial (strop : str -> str) (es : bool) (ext : str) (outdir : path) :
+   BFS from the root skipping self) and returns its output path. *)
+Theorem C11_lookup_total (strop : str -> str) (es : bool) (ext : str) (outdir : path) :
   forall perm cperm, (forall l, Permutation (perm l) l) -> (forall l, Permutation (cperm l) l) ->
   forall (types : list ty) (r : str), NoDup types -> one_root r types -> types <> [] ->
-  ns_fold strop types = false ->
-  forall self t, In self (keys (fst (build strop es ext outdir perm types))) -> In t types ->
-    find_output_path strop cperm (fst (build strop es ext outdir perm types)) self t = Some (out_path strop es ext outdir t).
-Proof. exact (lookup_total_partial strop es ext outdir). Qed.
-Print Assumptions C11_lookup_total_partial.
+  forall self t, In self (keys (fst (build strop same es ext outdir perm types))) -> In t types ->
+    find_output_path same cperm (fst (build strop same es ext outdir perm types)) self t = Some (out_path strop es ext outdir t).
+Proof. exact (lookup_total_now strop es ext outdir). Qed.
+Print Assumptions C11_lookup_total.
 
 (* (8) path_shape: output path = outdir / strop(ns_1) / ... / strop(Short_M_m) ++ ext, whenever the stropped file stem
    contains no '.' (identifiers never do: C09); same for the namespace file. *)
@@ -159,16 +180,25 @@ Theorem C11_include_path_eq_output_path (strop : str -> str) (es : bool) (ext : 
 Proof. exact (include_path_eq_output_path strop es ext outdir). Qed.
 Print Assumptions C11_include_path_eq_output_path.
 
-(* ---- the full statements of (6) and (7) are FALSE of the faithful model: F-NS-FOLD ----------------------------------
-   Witness: ns.class.Q.1.0 and ns._class.R.1.0 with a stropping that maps class -> _class (C and C++ do).  All other
-   premises hold; ns._class is a Namespace object (2) but is not a child of ns, its type R is never enumerated and
-   cannot be found from the root. *)
-Theorem C11_types_each_once_refuted :
+(* (12) the type file lies in the output folder of its namespace's Namespace object (Namespace.output_folder), i.e. next to
+   the namespace file -- with stropping enabled both are outdir / strop(ns_1) / ... / strop(ns_n). *)
+Theorem C11_type_file_in_namespace_folder (strop : str -> str) (ext stem : str) (outdir : path) :
+  forall t, removelast (out_path strop true ext outdir t) = outdir ++ map strop (t_ns t) /\
+            removelast (ns_path strop ext stem outdir (t_ns t)) = outdir ++ map strop (t_ns t).
+Proof. exact (type_file_in_namespace_folder strop ext stem outdir). Qed.
+Print Assumptions C11_type_file_in_namespace_folder.
+
+(* ---- documentation of the code BEFORE fix f08a0a1 (F-NS-FOLD, status fixed) -----------------------------------------------
+   With eqkey = strop (Namespace.__eq__ comparing the stropped name) the model loses a type: ns.class.Q.1.0 and
+   ns._class.R.1.0 with class -> _class.  All premises hold; ns._class is a Namespace object but not a child of ns, its
+   type R is never enumerated and cannot be found from the root.  The same input under the current code (eqkey = same)
+   is fine (instance of C11_types_each_once; second Example). *)
+Theorem C11_prefix_code_types_each_once_refuted :
   exists (strop : str -> str) (types : list ty) (r : str) (perm cperm : list key -> list key) (t : ty),
     NoDup types /\ one_root r types /\ types <> [] /\
     (forall l, Permutation (perm l) l) /\ (forall l, Permutation (cperm l) l) /\
     ns_fold strop types = true /\ In t types /\
-    let b := build strop true w_ext w_out perm types in
+    let b := build strop strop true w_ext w_out perm types in
     existsb (fun tp => ty_eqb (fst tp) t) (get_all_datatypes cperm (fst b) (snd b)) = false /\
     find_output_path strop cperm (fst b) [r] t = None /\
     In (t_ns t) (keys (fst b)).
@@ -178,21 +208,28 @@ Proof.
   repeat (split; [first [exact A | exact B | exact C | exact D | exact w_fold | (right; left; reflexivity)]|]).
   exact w_dropped.
 Qed.
-Print Assumptions C11_types_each_once_refuted.
+Print Assumptions C11_prefix_code_types_each_once_refuted.
 
-(* ---- non-vacuity: the premises of the partial theorems are satisfiable together, with a stropping that changes names,
-   an empty intermediate namespace, two versions of one type, and non-identity iteration orders ---------------------- *)
-Definition ex_strop (x : str) : str := if str_eqb x w_class then 95 :: w_class else x.
+Example C11_fold_witness_kept_by_current_code :
+  let b := build w_strop same true w_ext w_out w_id [w_Q; w_R] in
+  existsb (fun tp => ty_eqb (fst tp) w_R) (get_all_datatypes w_id (fst b) (snd b)) = true /\
+  existsb (fun tp => ty_eqb (fst tp) w_Q) (get_all_datatypes w_id (fst b) (snd b)) = true /\
+  find_output_path same w_id (fst b) [w_ns] w_R <> None.
+Proof. exact w_kept_now. Qed.
+
+(* ---- non-vacuity: the premises are satisfiable together, with a stropping that FOLDS two sibling namespaces (class, _class),
+   an empty intermediate namespace, two versions of one type, and non-identity iteration orders -------------------------- *)
 Definition ex_types : list ty :=
-  [mkTy [w_ns; w_class; [97]] [81] 1 0; mkTy [w_ns; w_class; [97]] [81] 1 1; mkTy [w_ns] [84] 0 1; mkTy [w_ns; [98]] [85] 2 0].
+  [mkTy [w_ns; w_class; [97]] [81] 1 0; mkTy [w_ns; w_class; [97]] [81] 1 1; mkTy [w_ns] [84] 0 1;
+   mkTy [w_ns; 95 :: w_class] [85] 2 0].
 
-Example C11_partial_premises_satisfiable :
-  NoDup ex_types /\ one_root w_ns ex_types /\ ex_types <> [] /\ ns_fold ex_strop ex_types = false /\
+Example C11_premises_satisfiable :
+  NoDup ex_types /\ one_root w_ns ex_types /\ ex_types <> [] /\ ns_fold w_strop ex_types = true /\
   (forall l : list key, Permutation (rev l) l) /\
-  length (keys (fst (build ex_strop true w_ext w_out (@rev key) ex_types))) = 4%nat /\
-  length (get_all_types ex_strop w_ext [95] w_out (@rev key)
-            (fst (build ex_strop true w_ext w_out (@rev key) ex_types))
-            (snd (build ex_strop true w_ext w_out (@rev key) ex_types))) = 8%nat.
+  length (keys (fst (build w_strop same true w_ext w_out (@rev key) ex_types))) = 4%nat /\
+  length (get_all_types w_strop w_ext [95] w_out (@rev key)
+            (fst (build w_strop same true w_ext w_out (@rev key) ex_types))
+            (snd (build w_strop same true w_ext w_out (@rev key) ex_types))) = 8%nat.
 Proof.
   split; [|split; [|split; [|split; [|split; [|split]]]]].
   - repeat (constructor; [cbn [In]; intuition discriminate|]). constructor.
